@@ -197,7 +197,7 @@ def extra_units():
         cases.append(cs)
     bb.cases = cases
     out.append(bb)
-    for u in (c17.fill_range, c17.trim):
+    for u in (c17.fill_range, c17.trim, c17.binning_contigs):
         v = copy.copy(u)
         v.prop = PROP
         out.append(v)
